@@ -10,8 +10,10 @@ CHECKS = {
    text="Every key-taking method of the real CaselessDict (__getitem__ __setitem__ __delitem__ __contains__ has_key get setdefault pop) "
         "and update() is symbolically executed from an arbitrary well-formed view and proved equal (exit kind, result, WHOLE view incl. "
         "insertion order) to the dict operation at up(to_unicode(key)); the representation invariant (only upper-case keys) is preserved on "
-        "every exit, so the statement holds after every operation sequence by induction, with no bound. The remaining operations "
-        "(constructors, copy, popitem, merge operators, ==, canonical order) are a labelled bounded stand-in.",
+        "every exit, so the statement holds after every operation sequence by induction, with no bound. __eq__ is proved total, reflexive "
+        "by identity, False for non-mappings, equal to dict equality of the two contents (insertion order plays no role) and to compare "
+        "a plain mapping by its upper-cased content. The remaining operations (constructors, copy, popitem, merge operators, canonical "
+        "order) are a labelled bounded stand-in.",
    note="Trusted: OrderedDict primitive contracts on raw keys (cross-checked against CPython each run), str.upper idempotent "
         "(checked on all code points each run), the pyvc executor and z3. Bounded only: constructors/copy/popitem/|,|=/fromkeys/==/sorted_keys.",
    technique="contract-based deductive verification: AST->z3 VCs over a map view (pyvc), loop rule for update; bounded stand-in for C-level ops"),
